@@ -22,7 +22,7 @@ Proof. reflexivity. Qed.
 Lemma lenN_cons x l : lenN (x :: l) = lenN l + 1.
 Proof. unfold lenN. cbn [length]. lia. Qed.
 
-Lemma pow256_4 : pow256 4 = two32N.
+Lemma pow256_4 : pow256 4 = pow2_32N.
 Proof. vm_compute. reflexivity. Qed.
 
 (** * [split_at] *)
@@ -70,7 +70,7 @@ Qed.
 
 (** * Words and tuples *)
 
-Lemma get32_le v rest : v < two32N -> get32 (le 4 v ++ rest) = Some (v, rest).
+Lemma get32_le v rest : v < pow2_32N -> get32 (le 4 v ++ rest) = Some (v, rest).
 Proof.
   intros H. unfold get32. rewrite split_at_app_exact by apply lenN_le4.
   rewrite le_dec_le by (rewrite pow256_4; exact H). reflexivity.
@@ -90,7 +90,7 @@ Proof.
   intros H. inversion H; subst. rewrite (split_at_app _ y _ _ _ E). reflexivity.
 Qed.
 
-Lemma get_tuple_ser t rest : lenN t < two32N -> get_tuple (ser_tuple t ++ rest) = Some (t, rest).
+Lemma get_tuple_ser t rest : lenN t < pow2_32N -> get_tuple (ser_tuple t ++ rest) = Some (t, rest).
 Proof.
   intros H. unfold get_tuple, ser_tuple. rewrite <- app_assoc. rewrite get32_le by exact H.
   apply split_at_app_exact. reflexivity.
@@ -103,17 +103,17 @@ Proof. unfold ser_tuple. rewrite lenN_app, lenN_le4. reflexivity. Qed.
 
 Lemma s_of_u32_of_s z : s32_ok z -> s_of_u32 (u32_of_s z) = z.
 Proof.
-  unfold s32_ok, s_of_u32, u32_of_s, two31, two32. intros H.
+  unfold s32_ok, s_of_u32, u32_of_s, pow2_31, pow2_32. intros H.
   destruct (N.ltb_spec (Z.to_N (z mod 4294967296)) 2147483648); lia.
 Qed.
 
-Lemma u32_of_s_lt z : u32_of_s z < two32N.
-Proof. unfold u32_of_s, two32, two32N. lia. Qed.
+Lemma u32_of_s_lt z : u32_of_s z < pow2_32N.
+Proof. unfold u32_of_s, pow2_32, pow2_32N. lia. Qed.
 
 (** * One record *)
 
 Lemma parse_body_ser ty b pad :
-  shape_matches ty b -> body_words_ok b -> lenN (ser_body b) < two32N ->
+  shape_matches ty b -> body_words_ok b -> lenN (ser_body b) < pow2_32N ->
   parse_body ty (ser_body b ++ pad) = Some (b, pad).
 Proof.
   unfold shape_matches, parse_body. intros Hs Hw Hl.
@@ -122,12 +122,12 @@ Proof.
   - destruct Hw as [Hp Hsl].
     rewrite !lenN_app, !lenN_le4, lenN_ser_tuple in Hl.
     rewrite <- !app_assoc. rewrite get32_le by exact Hp. rewrite get32_le by exact Hsl.
-    rewrite get_tuple_ser by (unfold two32N in *; lia). reflexivity.
+    rewrite get_tuple_ser by (unfold pow2_32N in *; lia). reflexivity.
   - destruct Hw as [Hp Hsl].
     rewrite !lenN_app, !lenN_le4, !lenN_ser_tuple in Hl.
     rewrite <- !app_assoc. rewrite get32_le by exact Hp. rewrite get32_le by exact Hsl.
-    rewrite get_tuple_ser by (unfold two32N in *; lia).
-    rewrite get_tuple_ser by (unfold two32N in *; lia). reflexivity.
+    rewrite get_tuple_ser by (unfold pow2_32N in *; lia).
+    rewrite get_tuple_ser by (unfold pow2_32N in *; lia). reflexivity.
   - destruct Hw as [Hp Hsl].
     rewrite <- !app_assoc. rewrite get32_le by exact Hp. rewrite get32_le by exact Hsl. reflexivity.
   - rewrite get32_le by exact Hw. reflexivity.
@@ -146,7 +146,7 @@ Proof.
   destruct (N.ltb_spec (f_size r) 20); [lia|].
   rewrite (app_assoc (ser_body (f_body r))).
   rewrite split_at_app_exact by (rewrite lenN_app; lia).
-  rewrite parse_body_ser; [| exact Hsh | exact Hw | unfold two32N in *; lia].
+  rewrite parse_body_ser; [| exact Hsh | exact Hw | unfold pow2_32N in *; lia].
   rewrite !s_of_u32_of_s by assumption.
   destruct r; reflexivity.
 Qed.
@@ -293,19 +293,19 @@ Proof.
   reflexivity.
 Qed.
 
-Lemma le_dec_lt w : lenN w = 4 -> bytes_ok w = true -> le_dec w < two32N.
+Lemma le_dec_lt w : lenN w = 4 -> bytes_ok w = true -> le_dec w < pow2_32N.
 Proof.
   unfold lenN. intros L B.
   destruct w as [|a [|b [|c [|d [|e w]]]]]; cbn [length] in L; try lia.
   unfold bytes_ok in B. cbn [forallb] in B. unfold is_byte in B.
-  cbn [le_dec]. unfold two32N. lia.
+  cbn [le_dec]. unfold pow2_32N. lia.
 Qed.
 
 Lemma bytes_ok_app a b : bytes_ok (a ++ b) = bytes_ok a && bytes_ok b.
 Proof. unfold bytes_ok. apply forallb_app. Qed.
 
 Lemma get32_back l v rest : get32 l = Some (v, rest) -> bytes_ok l = true ->
-  l = le 4 v ++ rest /\ v < two32N /\ bytes_ok rest = true.
+  l = le 4 v ++ rest /\ v < pow2_32N /\ bytes_ok rest = true.
 Proof.
   intros H B. apply get32_inv in H. destruct H as (w & -> & L & ->).
   rewrite bytes_ok_app in B. apply andb_prop in B. destruct B as [B1 B2].
@@ -322,9 +322,9 @@ Proof.
   unfold ser_tuple. rewrite L. rewrite <- app_assoc. tauto.
 Qed.
 
-Lemma u32_of_s_of_u32 n : n < two32N -> u32_of_s (s_of_u32 n) = n /\ s32_ok (s_of_u32 n).
+Lemma u32_of_s_of_u32 n : n < pow2_32N -> u32_of_s (s_of_u32 n) = n /\ s32_ok (s_of_u32 n).
 Proof.
-  unfold s32_ok, s_of_u32, u32_of_s, two31, two32, two32N. intros H.
+  unfold s32_ok, s_of_u32, u32_of_s, pow2_31, pow2_32, pow2_32N. intros H.
   destruct (N.ltb_spec n 2147483648); lia.
 Qed.
 
